@@ -76,9 +76,12 @@ Definition open_store (flat : bool) (dir : string) (m : sfs) (root : path) : opt
   else Some (Store root (map (λ k, (k, NotLoaded)) (files_below (root ++ [dir]) m))).
 
 (** * The abstract font *)
-Record glif_abs := Glif { g_path : rel; g_body : option content }.
-  (* [None]: the glyph's lib holds public.objectLibs, so Glyph::save_with_options refuses before
-     creating the file *)
+Record glif_abs := MkGlif { g_path : rel; g_body : option content; g_enc : bool }.
+  (* [g_body = None]: Glyph::save_with_options fails before creating the file - the glyph's lib
+     holds public.objectLibs ([g_enc = false]), or encoding the glyph fails ([g_enc = true]: a
+     plist value the XML writer refuses, e.g. a Uid, somewhere in the glyph's lib) *)
+Definition Glif (p : rel) (b : option content) : glif_abs := MkGlif p b false.
+Definition GlifEnc (p : rel) : glif_abs := MkGlif p None true.
 Record layer_abs := Layer {
   la_name : string;
   la_dir : rel;
@@ -108,7 +111,7 @@ Definition set_stores (f : font_abs) (d i : store) : font_abs :=
 
 (** * Errors ([FontWriteError], [LayerWriteError] variants) *)
 Inductive topfile := FMeta | FInfo | FLib | FGroups | FKerning | FFeatures | FLayerContents.
-Inductive layer_err := LCreateDir | LContents | LLayerInfo | LGlyphObjLibs | LGlyphIo.
+Inductive layer_err := LCreateDir | LContents | LLayerInfo | LGlyphObjLibs | LGlyphEncode | LGlyphIo.
 Inductive werr :=
 | Downgrade | PreexistingObjLibs | InvalidGroups | InvalidFontInfo | InvalidStoreEntry
 | Cleanup | CreateUfoDir | CustomFile (f : topfile) | FeatureFile
@@ -197,7 +200,7 @@ Definition IMAGES_DIR := "images".
 
 Definition glif_prog (t : path) (l : layer_abs) (g : glif_abs) : prog :=
   match g_body g with
-  | None => [(LayerErr (la_name l) LGlyphObjLibs, fail_act)]
+  | None => [(LayerErr (la_name l) (if g_enc g then LGlyphEncode else LGlyphObjLibs), fail_act)]
   | Some c => [(LayerErr (la_name l) LGlyphIo, at_rel t (la_dir l ++ g_path g) (λ p, write p c))]
   end.
 Definition lstep_prog (t : path) (l : layer_abs) (s : lstep) : prog :=
@@ -364,7 +367,7 @@ Definition werr_name (e : werr) : string :=
 Definition layer_err_name (e : layer_err) : string :=
   match e with
   | LCreateDir => "CreateDir" | LContents => "Contents" | LLayerInfo => "LayerInfo"
-  | LGlyphObjLibs => "PreexistingPublicObjectLibsKey" | LGlyphIo => "Io"
+  | LGlyphObjLibs => "PreexistingPublicObjectLibsKey" | LGlyphEncode => "Plist" | LGlyphIo => "Io"
   end.
 Definition check_name (k : refusal) : string * string :=
   match k with
